@@ -68,12 +68,14 @@ PROBE_C = r'''
 #include "common.h"
 #include "atomic.h"
 #include <errno.h>
+#include <linux/futex.h>
 #define P(n) const unsigned long long probe_##n = (unsigned long long)(n);
 P(MU_WLOCK) P(MU_SPINLOCK) P(MU_WAITING) P(MU_DESIG_WAKER) P(MU_CONDITION) P(MU_WRITER_WAITING) P(MU_LONG_WAIT)
 P(MU_ALL_FALSE) P(MU_RLOCK) P(MU_RLOCK_FIELD) P(MU_ANY_LOCK)
 P(CV_SPINLOCK) P(CV_NON_EMPTY) P(NSYNC_WAITER_FLAG_MUCV) P(LONG_WAIT_THRESHOLD)
 P(ETIMEDOUT) P(ECANCELED) P(EINTR) P(EWOULDBLOCK) P(EAGAIN)
 P(WAITER_RESERVED) P(WAITER_IN_USE)
+P(FUTEX_WAIT) P(FUTEX_WAKE) P(FUTEX_WAIT_BITSET) P(FUTEX_CMD_MASK) P(FUTEX_CLOCK_REALTIME)
 '''
 
 def _split_cmd(cmd):
